@@ -23,6 +23,9 @@ pub fn canary_slice_middle(v: &Vec<u64>) { let m = slice_middle(v.as_slice()); a
 pub fn canary_clamp_to(a: FineDuration, b: FineDuration) { let c = a.clamp_to(b); assert(false); }
 pub fn canary_iter_count(s: &SampleCollection) requires s.time_samples@.len() <= u32::MAX { let c = s.iter_count(); assert(false); }
 pub fn canary_clear(s: &mut SampleCollection) { s.clear(); assert(false); }
+pub fn canary_add_to_total(m: &ThreadAllocTallyMap, t: &mut TotalAllocTallyMap)
+    requires forall |k: int| 0 <= k < 4 ==> (#[trigger] old(t).values@[k]).count + m.values@[k].count <= u128::MAX && old(t).values@[k].size + m.values@[k].size <= u128::MAX,
+{ m.add_to_total(t); assert(false); }
 """
 
 
@@ -88,6 +91,32 @@ def verus_files(S: Sources):
         """),
         code_fn(sm, f_iter, "SampleCollection::iter_count", ret="r", inserts=[ITER_HINT], clauses=ITER_CLAUSES),
     ])
+    # AllocOpMap<ThreadAllocTally>::add_to_total (the means of the allocation columns are taken over these totals)
+    a = S(ALLOC)
+    f_add = a.find_fn("add_to_total", impl=r"impl ThreadAllocTallyMap\b")
+    secs.append(ghost("total tally aliases", "pub type TotalAllocTally = AllocTally<u128>;\npub type TotalAllocTallyMap = AllocOpMap<TotalAllocTally>;", kind="glue"))
+    secs += wrap_impl("impl ThreadAllocTallyMap", [
+        code_fn(a, f_add, "ThreadAllocTallyMap::add_to_total",
+                # Verus has no iterator adapters: `for (i, value) in self.values.iter().enumerate()` becomes an index loop (header only)
+                subst=[(r"for\s*\(\s*i\s*,\s*value\s*\)\s*in\s+self\s*\.\s*values\s*\.\s*iter\(\)\s*\.\s*enumerate\(\)\s*\{",
+                        """let mut i: usize = 0;
+        while i < 4
+            invariant 0 <= i <= 4,
+                forall |k: int| 0 <= k < 4 ==> (#[trigger] old(total).values@[k]).count + self.values@[k].count <= u128::MAX
+                    && old(total).values@[k].size + self.values@[k].size <= u128::MAX,
+                forall |k: int| 0 <= k < i ==> (#[trigger] total.values@[k]).count == old(total).values@[k].count + self.values@[k].count
+                    && total.values@[k].size == old(total).values@[k].size + self.values@[k].size,
+                forall |k: int| i <= k < 4 ==> (#[trigger] total.values@[k]) == old(total).values@[k],
+            decreases 4 - i,
+        {
+            let value = &self.values[i]; let i0 = i; i = i + 1; let i = i0;
+            proof { assert(total.values@[i as int] == old(total).values@[i as int]); assert(old(total).values@[i as int].count + self.values@[i as int].count <= u128::MAX); }""", 1)],
+                clauses="""
+            requires forall |k: int| 0 <= k < 4 ==> (#[trigger] old(total).values@[k]).count + self.values@[k].count <= u128::MAX
+                && old(total).values@[k].size + self.values@[k].size <= u128::MAX,
+            ensures forall |k: int| 0 <= k < 4 ==> (#[trigger] final(total).values@[k]).count == old(total).values@[k].count + self.values@[k].count
+                && final(total).values@[k].size == old(total).values@[k].size + self.values@[k].size,
+        """)])
     canary = list(secs) + [ghost("canaries", CANARIES, kind="lemma")]
     return [VerusFile("c05_helpers", secs), VerusFile("c05_canary", canary, expect_fail=True)] + time_core_files(S)
 
